@@ -126,6 +126,46 @@ RULES = {
 }
 
 
+def mutation_adequacy(prop, fn):
+    """Thorough tier, non-gating meta-evidence (DESIGN 3.7 iii): apply each stored mutant of this property
+    to a scratch COPY of /repo's working tree, re-extract, re-run the rule, record whether it fires."""
+    import glob, shutil, subprocess, tempfile
+    patches = sorted(glob.glob(os.path.join(VERIF, 'seeded', prop + '-m*', 'patch.diff'))) + \
+        sorted(glob.glob(os.path.join(VERIF, 'selftest', prop.lower() + '_*.diff')))
+    out = {'applied': 0, 'detected': 0, 'not_applicable_to_this_tree': 0, 'details': []}
+    for pt in patches:
+        tmp = tempfile.mkdtemp(prefix='pkv-mut-')
+        try:
+            dst = os.path.join(tmp, 'repo')
+            shutil.copytree(REPO, dst, ignore=shutil.ignore_patterns('target', '.git'))
+            a = subprocess.run(['git', 'apply', '--whitespace=nowarn', pt], cwd=dst, capture_output=True, text=True)
+            name = os.path.relpath(pt, VERIF)
+            if a.returncode != 0:
+                out['not_applicable_to_this_tree'] += 1
+                out['details'].append({'mutant': name, 'result': 'patch does not apply to the current tree'})
+                continue
+            out['applied'] += 1
+            sub = Report(prop, 'thorough', 'other', 'mutant replay')
+            try:
+                facts = extract('dev', repo=dst)
+                fn(Ctx(facts), sub, 'quick')
+            except Undecided as e:
+                sub.undecided(str(e))
+            except FactError as e:
+                sub.finding('BUILD', str(e)[:200])
+            except Exception as e:
+                sub.finding('INTERNAL', repr(e))
+            from .common import load_known
+            known, _ = load_known()
+            new = [k for k, _d in sub.findings if (prop, k) not in known]
+            if new:
+                out['detected'] += 1
+            out['details'].append({'mutant': name, 'result': 'detected' if new else 'NOT detected', 'first_finding': new[0] if new else None})
+        finally:
+            shutil.rmtree(tmp, ignore_errors=True)
+    return out
+
+
 def run(prop, tier):
     fn, level, technique = RULES[prop]
     rep = Report(prop, tier, level, technique)
@@ -150,6 +190,14 @@ def run(prop, tier):
         except Exception as e:   # analyser bug: fail closed, loudly
             traceback.print_exc()
             rep.finding('INTERNAL ' + type(e).__name__, 'analyser error on %s MIR: %r' % (fl, e))
+    if tier == 'thorough':
+        try:
+            ma = mutation_adequacy(prop, fn)
+            rep.extra['mutation_adequacy_non_gating'] = ma
+            print('mutants of %s: %d applied, %d detected, %d not applicable to this tree' % (
+                prop, ma['applied'], ma['detected'], ma['not_applicable_to_this_tree']))
+        except Exception as e:
+            rep.note('mutant replay skipped: %r' % (e,))
     return rep.finish()
 
 
